@@ -104,5 +104,11 @@ CLAIMS['C14'] = {
   'note': _TB + 'NOT proved: the token-stream scan that rewrites GOTO/GOSUB/THEN/... references inside the byte code, and behavioural equivalence of the renumbered program. One defect found and fixed (KeyError for a trap line outside the range).',
 }
 
+CLAIMS['C11'] = {
+  'text': 'Proof over a concrete layout with symbolic contents, on a real DataSegment with its Scalars and Arrays: PEEK(VARPTR(v)+k) is byte k of the stored value for every scalar, array element and k (also after a scalar created later moves the arrays), '
+          'records carry type size and name, storage ranges are pairwise disjoint and inside variable/array space, assigning one variable changes no other.',
+  'note': _TB + 'The layout (six numeric scalars with short and long names, three arrays of rank 1 and 2) is a concrete scenario; string variables and string space are not covered (C10). One defect found and fixed (PEEK into arrays after the first).',
+}
+
 NOT_APPLICABLE = {
 }
